@@ -3,6 +3,7 @@ package main
 import (
 	"context"
 	"math/big"
+	"strings"
 
 	"verifharness/internal/asm"
 	"verifharness/internal/impl"
@@ -102,11 +103,7 @@ func cmdJumpDest(args []string) error {
 		}
 		stats["codes"]++
 	}
-	out := ""
-	for _, l := range lines {
-		out += l + "\n"
-	}
-	if err := writeFile(c.out, "cases.txt", out); err != nil {
+	if err := writeFile(c.out, "cases.txt", strings.Join(lines, "\n")+"\n"); err != nil {
 		return err
 	}
 	if err := writeJSON(c.out, "cases.json", cases); err != nil {
